@@ -152,7 +152,8 @@ Print Assumptions C19_redirect.
 
 (* Asynchronously written redirect targets (async file objects, StreamWriters, pipes): wait()/run()/communicate()
    return only when the channel is closed and the writer queue has been joined; at that moment the target holds
-   exactly what was sent before the close, in order, for every interleaving of data, EOF, writer turns and close.
+   exactly what was sent before the close, in order and closed after it, for every interleaving of data, EOF,
+   the moment the target is attached (also after the channel has closed, fb5761c), writer turns and close.
    (Returning at channel close alone, without the join, is what seeded change C19-d does; the theorem is false
    of that.) *)
 Theorem C19_wait_flushes_redirect : forall es,
@@ -161,10 +162,17 @@ Proof. exact wait_flushes_redirect. Qed.
 Print Assumptions C19_wait_flushes_redirect.
 
 Example C19_wait_flushes_example :
-  let es := [AvData [1]; AvTurn; AvData [2]; AvEof; AvClose] in
+  let es := [AvAttach; AvData [1]; AvTurn; AvData [2]; AvEof; AvClose] in
   await_done (arun es) = false /\ a_target (arun es) = [TData [1]] /\
   await_done (arun (es ++ [AvTurn; AvTurn])) = true.
 Proof. vm_compute. repeat split; reflexivity. Qed.
+
+(* about the old definition only: before fb5761c a pipe attached after the channel had closed was not waited
+   for, so wait() could return with the output still in the writer *)
+Theorem C19_attached_after_close_old_refuted : exists es,
+  await_done_old (arun es) = true /\ a_target (arun es) <> asent false es.
+Proof. exists [AvData [1]; AvEof; AvClose; AvAttach]. vm_compute. split; [reflexivity|discriminate]. Qed.
+Print Assumptions C19_attached_after_close_old_refuted.
 
 (* drain: waits exactly while writing is paused and the channel is there; a normal return implies writing is
    not paused; a lost channel with an error, or lost while paused, makes it fail; resume_writing and
